@@ -8,7 +8,7 @@ const { compile } = require('../lib/world')
 const { SETS } = require('../lib/cfgset')
 const { Rng, hashStr, clip, chunk } = require('../lib/util')
 
-const DIRECTIVES = ["'use strict'", '"use strict"', "'other directive'", '"twelve chars!"', "'use strict'"]
+const DIRECTIVES = ["'use strict'", '"use strict"', "'other directive'", '"twelve chars!"', "'use strict'", "'don\\'t touch'", '"esc\\x41ped \\u0064irective"', "'line \\\ncontinuation'", "'use\\x20strict'", "''"]
 const lastReturn = (b, w) => { const i = b.lastIndexOf('return '); return b.slice(0, i) + w + b.slice(i + 7) }
 const FUNCS = [
   (d, b) => `function fn() { ${d} ${b} }\nw.out(fn.call(undefined));`,
